@@ -10,6 +10,7 @@ import (
 	"io/ioutil"
 	"os"
 	"path"
+	"syscall"
 
 	"git.defalsify.org/vise.git/db"
 )
@@ -114,7 +115,9 @@ func (fdb *fsDb) Get(ctx context.Context, key []byte) ([]byte, error) {
 		if err == nil {
 			break
 		}
-		if !errors.Is(err, fs.ErrNotExist) {
+		// a name too long for the file system (the translation or legacy name of a long key)
+		// cannot exist either: go on to the next candidate
+		if !errors.Is(err, fs.ErrNotExist) && !errors.Is(err, syscall.ENAMETOOLONG) {
 			return nil, err
 		}
 	}
